@@ -270,11 +270,9 @@ def enum_pairs(tier):
             yield {'access': pair}
 
 
-def access_strategy(min_size=0, max_size=6):
-    return st.one_of(
-        st.lists(st.sampled_from(G.VIEW_ORDER), min_size=min_size, max_size=max_size),
-        st.permutations(G.VIEW_ORDER).map(list),
-    )
+def access_strategy(min_size=1, max_size=6):
+    some = st.lists(st.sampled_from(G.VIEW_ORDER), min_size=min_size, max_size=max_size)
+    return st.one_of(some, some, some, st.permutations(G.VIEW_ORDER).map(list), st.just([]))
 
 
 def strat_subsets(tier):
